@@ -337,6 +337,34 @@ def check_cases(ctx, cases):
                     break
             except (ValueError, TypeError):
                 pass
+        # deriving a copy from an object that carries a WRONG id: whatever field is changed (also one that
+        # does not appear in the manifest), the copy gets the id of its own content
+        if raw is None:
+            for w in wl[:1]:
+                try:
+                    bad0 = attr.evolve(o, id=w)
+                except ValueError:
+                    continue
+                for f in attr.fields(type(o)):
+                    if f.name in ("id", "raw_manifest"):
+                        continue
+                    try:
+                        ev3 = bad0.evolve(**{f.name: getattr(other, f.name)})
+                    except (ValueError, TypeError):
+                        continue
+                    ctx.count("evolve-from-wrong-id")
+                    if ev3.id != hashlib.sha1(fm(ev3)).digest() or check_outcome(ev3) != "ok":
+                        ctx.fail(case, f"evolve({f.name}=…) on an object carrying a wrong id yields a copy whose id is not that of its own manifest", "evolve-id-stale:from-wrong-id", {"field": f.name})
+                        break
+        # revisions: extra headers handed over inside metadata (the legacy place) through evolve
+        if kind == "revision" and raw is None and not o.extra_headers:
+            try:
+                ev4 = o.evolve(metadata={"extra_headers": [[b"evolved", b"header\nwith a second line"], [b"k", b""]], "other": 1})
+                ctx.count("evolve-legacy-headers")
+                if ev4.id != hashlib.sha1(fm(ev4)).digest() or check_outcome(ev4) != "ok" or not ev4.extra_headers or str(ev4.swhid()) != "swh:1:rev:" + ev4.id.hex():
+                    ctx.fail(case, "evolve(metadata={'extra_headers': …}) on a revision yields a copy whose id is not that of its own manifest", "evolve-id-stale:legacy-headers")
+            except (ValueError, TypeError) as e:
+                ctx.fail(case, f"evolve(metadata={{'extra_headers': …}}) raises {type(e).__name__}", "evolve-raises:legacy-headers")
     res1 = ctx.model(reqs1)
     reqs2 = []
     for case, (o, attr_man, raw), r in zip(cases, objs, res1):
